@@ -30,12 +30,19 @@ THEOREMS = [
     "chunking_irrelevant_order", "chunking_irrelevant_topn", "chunking_irrelevant_hashagg",
     "chunking_irrelevant_sortagg", "chunking_irrelevant_semijoin", "chunking_irrelevant_hashsemijoin",
     "chunking_irrelevant_simpleagg_unsound", "chunkpath_rowcount",
-    # hash joins (NULL keys never match since the fix: commit): characterised without hypothesis, = nested
-    # loop / spec under KeysComparable (same-type part), full statement refuted for mixed widths
+    # hash joins, the executors' bodies on given key vectors (NULL keys never match since the fix: commit):
+    # characterised without hypothesis, = nested loop / spec under KeysComparable, which raw mixed-width
+    # keys do not satisfy
     "hashjoin_perm", "hashjoin_is_joinBag", "joinBag_eq_spec", "hash_eq_spec_partial",
     "hash_eq_nl_inner", "hash_eq_nl_left_outer", "hash_eq_nl_semi", "hash_eq_nl_anti", "hash_semi2_eq_nl",
     "hash_eq_spec_right_outer", "hash_eq_spec_full_outer",
-    "keysComparable_null_free", "hash_eq_nl_unsound_int_width",
+    "keysComparable_null_free", "hash_raw_keys_need_widening",
+    # the executors themselves (keys built through join_key since the fix: commit "join keys compare by
+    # value"): KeysComparable discharged for all data, = nested loop / spec without hypothesis on the keys
+    "widen_keys_comparable", "c11_widen_keys_comparable", "equiOn_wk", "sqlCmp_joinKey", "sorted_widen",
+    "hashW_eq_spec", "hashW_eq_nl", "hashW_semi_eq_nl", "hashW_semi2_eq_nl", "mergeW_eq_hashW", "mergeW_eq_spec",
+    "mergeW_eq_spec_raw_sorted", "chunking_irrelevant_hashjoinW", "chunking_irrelevant_mergejoinW",
+    "hashW_int_width_regression", "mergeW_int_width_regression",
     # regression inputs: the witnesses of the former *_unsound_null_key theorems
     "hashjoin_null_key_regression", "hash_anti_null_key_regression", "mergejoin_null_key_regression",
     # limit / top-N
